@@ -92,6 +92,44 @@ theorem C16_isolation {α} (s s' : Sys α) (a b : Nat) (l : Label α) (h : sstep
     subst h
     simp [hb]
 
+/-- **Isolation over whole histories (projection).**  The state of address `b` after *any* accepted interleaving is
+    the state a server talking to `b` alone reaches on `b`'s own labels, in their own order: what the other clients
+    send, how slow their handlers are and where their steps fall between `b`'s steps cannot be observed at `b`.
+    With `C16_fifo_once` this gives per-client FIFO for every arrival order of the *other* clients. -/
+theorem C16_projection {α} (ls : List (Nat × Label α)) (s₀ s : Sys α) (h : srun s₀ ls = some s) (b : Nat) :
+    run (s₀ b) ((ls.filter (fun p => p.1 = b)).map (·.2)) = some (s b) := by
+  induction ls generalizing s₀ with
+  | nil =>
+    simp only [srun, Option.some.injEq] at h
+    subst h
+    simp [run]
+  | cons p ls ih =>
+    obtain ⟨a, l⟩ := p
+    simp only [srun] at h
+    cases hs : sstep s₀ a l with
+    | none => rw [hs] at h; cases h
+    | some s₁ =>
+      rw [hs] at h
+      have ih' := ih s₁ h
+      by_cases hab : a = b
+      · subst hab
+        have hst : step (s₀ a) l = some (s₁ a) := by
+          unfold sstep at hs
+          cases hst : step (s₀ a) l with
+          | none => rw [hst] at hs; cases hs
+          | some c =>
+            rw [hst] at hs
+            simp only [Option.map_some, Option.some.injEq] at hs
+            subst hs
+            simp
+        simp only [List.filter_cons, decide_true, if_true, List.map_cons, run, hst]
+        exact ih'
+      · have hba : b ≠ a := fun e => hab e.symm
+        have := C16_isolation s₀ s₁ a b l hs hba
+        rw [this] at ih'
+        simp only [List.filter_cons, hab, decide_false, Bool.false_eq_true, if_false]
+        exact ih'
+
 /-- **Everything that arrived can still be handled** (no deadlock, nothing stranded): from every reachable state
     of an address there is a continuation — using only steps of the server's own tasks and of a generator that
     keeps yielding, no further arrival — after which every datagram received so far has been consumed, in order,
@@ -113,6 +151,11 @@ example :
          (0, .gy false), (1, .to), (0, .gy false)]).map
       fun s => ((s 0).consumed, (s 0).queue, (s 0).active, (s 0).bad, (s 1).consumed, (s 1).active))
       = some ([1, 2, 3], [], 1, false, [7], 1) := by
+  decide +kernel
+
+/-- non-vacuity of the projection: address 1's own labels of the schedule below, run alone, give its final state -/
+example : ((run (Client.init : Client Nat) [.arrive 7, .h, .gy true, .gy true, .to]).map
+    fun c => (c.consumed, c.active, c.bad)) = some ([7], 1, false) := by
   decide +kernel
 
 end EasyNet
